@@ -39,7 +39,7 @@ fn check_const(st: &mut Stats, env: &BDDEnv<usize>, uni: &[usize], ops: &[&(D, T
         st.evals += 1;
         st.bump(kind);
         let case = || json!({"kind": kind, "ops": tables_json(ops), "n": n.to_string(), "universe": labels_json(uni)});
-        util::budget(50_000_000, 1000);
+        util::budget(if fam == "long" { 4_000_000_000 } else { 50_000_000 }, 1000);
         let r = guarded(|| match kind {
             "aln" => env.aln(&ds, n),
             "amn" => env.amn(&ds, n),
@@ -100,7 +100,7 @@ fn check_lists(st: &mut Stats, env: &BDDEnv<usize>, uni: &[usize], a: &[&(D, Tt)
         st.evals += 1;
         st.bump(kind);
         let case = || json!({"kind": kind, "a": tables_json(a), "b": tables_json(b), "universe": labels_json(uni)});
-        util::budget(50_000_000, 1000);
+        util::budget(if fam == "long" { 4_000_000_000 } else { 50_000_000 }, 1000);
         let r = guarded(|| match kind {
             "count_leq" => env.count_leq(&da, &db),
             "count_lt" => env.count_lt(&da, &db),
@@ -267,6 +267,48 @@ fn random_job(ctx: &Ctx, job: usize, iters: u64, maxlen: usize) -> Stats {
     st
 }
 
+/// Long operand lists (the cost of counting doubles per operand, so a list of 20 is about as long
+/// as is practical): literals, small functions, repeats and constants over 6 variables.
+fn long_list_job(ctx: &Ctx, len: usize, reps: usize) -> Stats {
+    let mut st = Stats::new();
+    let mut rng = Rng::stream(ctx.seed, "C05.long", len as u64);
+    let nvars = 6usize;
+    for _ in 0..reps {
+        let env: BDDEnv<usize> = BDDEnv::new();
+        let uni = pick_labels(&mut rng, &LABEL_POOL, nvars);
+        let vars = vars_of(&uni);
+        let mut ops: Vec<(D, Tt)> = Vec::new();
+        util::budget(u64::MAX, 1000);
+        for i in 0..len {
+            let t = match rng.below(8) {
+                0 if !ops.is_empty() => rng.pick(&ops).1.clone(),
+                1 => random_table_subset(&mut rng, nvars as u32),
+                2 => Tt::constant(nvars as u32, rng.chance(1, 2)),
+                k => {
+                    let v = Tt::var(nvars as u32, ((i + k as usize) % nvars) as u32);
+                    if rng.chance(1, 4) { v.not() } else { v }
+                }
+            };
+            ops.push((build_in_env(&env, &t, &vars), t));
+        }
+        let refs: Vec<&(D, Tt)> = ops.iter().collect();
+        let l = len as i64;
+        for n in [0, 1, l / 2, l - 1, l, rng.range(0, l + 1)] {
+            check_const(&mut st, &env, &uni, &refs, n, "long");
+        }
+        // long list on either side of a list comparison (the two lengths add up)
+        let short_len = 20usize.saturating_sub(len).min(3);
+        util::budget(u64::MAX, 1000);
+        let other: Vec<(D, Tt)> = (0..short_len).map(|_| { let t = random_table_subset(&mut rng, nvars as u32); (build_in_env(&env, &t, &vars), t) }).collect();
+        let orefs: Vec<&(D, Tt)> = other.iter().collect();
+        check_lists(&mut st, &env, &uni, &orefs, &refs, "long");
+        check_lists(&mut st, &env, &uni, &refs, &orefs, "long");
+        st.bump("long_list_cases");
+        st.max("max_list_length", len as u64);
+    }
+    st
+}
+
 const OPERAND_TEXTS: [&str; 14] = ["a", "b", "-a", "a & b", "a | b", "a ^ b", "true", "false", "c", "a => c", "-(b | c)", "a <=> b", "exists c # c & a", "[a, b] = 1"];
 
 fn language_job(ctx: &Ctx, job: usize, iters: u64) -> Stats {
@@ -371,18 +413,36 @@ pub fn run(ctx: &Ctx) -> (Stats, Spec) {
             check_text(&mut st, &format!("[] {} {}", cs, c));
         }
     }
+    let lens: Vec<usize> = ctx.tier.pick(vec![8, 11, 13, 15, 16, 17, 18], vec![8, 9, 10, 11, 12, 13, 14, 15, 16, 17, 18, 19, 20, 21]);
+    let reps = ctx.tier.pick(1usize, 4usize);
+    let parts = util::par_jobs(lens.len(), |j| long_list_job(ctx, lens[j], if lens[j] < 16 { 2 * reps } else { reps }));
+    st.merge(crate::report::merge_all(parts));
+    // the language: a long list of plain variables against boundary constants
+    for n in ctx.tier.pick(vec![16usize, 17, 18], vec![12, 16, 17, 18, 19, 20]) {
+        let names: Vec<String> = (0..n).map(|i| format!("x{}", i)).collect();
+        // (x0 .. xn-1 are too many names for a truth table: the formula is closed by quantifying all but 4)
+        for (cs, c) in [(">=", 1), ("=", n), ("<=", n - 1), (">", n / 2), ("<", 2)] {
+            check_text(&mut st, &format!("exists {} # [{}] {} {}", names[4..].join(", "), names.join(", "), cs, c));
+            check_text(&mut st, &format!("forall {} # [{}] {} {}", names[4..].join(", "), names.join(", "), cs, c));
+        }
+    }
     let wk_iters = ctx.tier.pick(3_000u64, 60_000u64);
     let parts = util::par_jobs(16, |job| super::weak::weak_hash_job(ctx, "C05", job, wk_iters));
     st.merge(crate::report::merge_all(parts));
+    let wide_iters = ctx.tier.pick(400u64, 8_000u64);
+    let parts = util::par_jobs(16, |job| super::wide::wide_job(ctx, "C05", job, wide_iters));
+    st.merge(crate::report::merge_all(parts));
     let spec = Spec {
-        rule: "API: operand lists (exhaustive over all 2-variable functions up to length 3; random with repeats and complementary pairs up to length 5 [quick] / 7 [thorough]) x bounds n in [-3, len+3] plus {i64::MIN+len, i64::MIN+len+1, -2^40, 2^40, i64::MAX-len-1, i64::MAX-len} x {aln, amn, exn}; list-vs-list for all five comparisons. Language: `[..] cmp n` and `[..] cmp [..]` with trailing commas, constants {0,1,len-1,len,len+1,2,2^31,2^63-1} exact and {2^63, 2^64-1} 'rejected or exact'. distinct = (kind, operand tables, bound); non-trivial = >= 2 non-constant operands.".into(),
+        rule: "API: operand lists (exhaustive over all 2-variable functions up to length 3; random with repeats and complementary pairs up to length 5 [quick] / 7 [thorough]) x bounds n in [-3, len+3] plus {i64::MIN+len, i64::MIN+len+1, -2^40, 2^40, i64::MAX-len-1, i64::MAX-len} x {aln, amn, exn}; list-vs-list for all five comparisons; long lists of 8-18 [quick] / 8-21 [thorough] operands (literals, small functions, repeats, constants over 6 variables) against the bounds {0, 1, len/2, len-1, len, random} and on either side of a list comparison. Language: `[..] cmp n` and `[..] cmp [..]` with trailing commas, constants {0,1,len-1,len,len+1,2,2^31,2^63-1} exact and {2^63, 2^64-1} 'rejected or exact'. distinct = (kind, operand tables, bound); non-trivial = >= 2 non-constant operands. MANY VARIABLES: the same judgement on environments with 65-200 variables (more than a machine word of them), where operands are random DNFs and results are compared pointwise on 48 sampled assignments per case (biased towards the operands' cubes) and walked for order / reduction.".into(),
         assumptions: vec![
             "bounds are restricted to those for which n +/- (list length) does not overflow i64, as the statement says".into(),
             "for constants >= 2^63 the implementation may reject with an error or must read exactly that number".into(),
         ],
         floors: vec![
+            ("many_variable_cases".into(), 1_000, "environments with more than 64 variables never exercised".into()),
             ("weak_hash_symbol_calls".into(), 2_000, "environment over a constant-hash symbol type never exercised".into()),
             ("aln".into(), 5_000, "aln never exercised".into()),
+            ("long_list_cases".into(), 8, "long operand lists never exercised".into()),
             ("count_lt".into(), 5_000, "count_lt never exercised".into()),
             ("negative_bounds".into(), 1_000, "no negative bounds".into()),
             ("extreme_bounds".into(), 1_000, "no extreme bounds".into()),
@@ -394,6 +454,10 @@ pub fn run(ctx: &Ctx) -> (Stats, Spec) {
 }
 
 pub fn replay(_ctx: &Ctx, _monitor: &str, case: &Value, st: &mut Stats) {
+    if case.get("kind").and_then(|k| k.as_str()) == Some("wide") {
+        super::wide::replay_wide(_ctx, "C05", case, st);
+        return;
+    }
     if case.get("kind").and_then(|k| k.as_str()) == Some("weak-hash") {
         let job = case.get("job").and_then(|j| j.as_u64()).unwrap_or(0) as usize;
         let mut c2 = _ctx.clone();
